@@ -1,5 +1,6 @@
 import ActixModel.Proofs.Flush
 import ActixModel.Proofs.DispWake
+import ActixModel.Proofs.Exec
 /-
 C04 — HTTP/1 connections always progress: no lost wake-ups, all bytes flushed.
 
@@ -347,5 +348,38 @@ theorem C04_pending_registers_shutdown (e : Env) (F : Nat) (d d' : D) (w w' : Wo
                   rw [this] at hs; cases hs
                 · exact ih _ _ h
   exact key 2 d w hp
+
+
+/-! ## the executor never reports a stall while bytes are unflushed or a shutdown is in flight -/
+
+open ActixModel.Exec
+
+/-- **C04_no_stall_with_unflushed_bytes.** At an idle point (the poll returned `Pending` and
+nothing has woken the task) with response bytes still unflushed, the executor always has an
+event to deliver that wakes the task (the socket's write or flush side holds the waker): the
+verdict `stalled` is impossible while produced bytes are not yet on the wire.  Together with
+`C04_flush_terminates` (each such wake-up consumes one of the socket's finitely many `Pending`
+answers) this is "all produced bytes get flushed". -/
+theorem C04_no_stall_with_unflushed_bytes (e : Env) (F : Nat) (d d' : D) (w w' : World)
+    (h : pollTop e F d w = (.pending, d', w')) (hun : d'.wlen > 0 ∨ w'.dirty = true)
+    (tr : List String) :
+    (fireWaiters false Src.waitable w' tr false).2.2 = true := by
+  rcases C04_pending_registers_write e F d d' w w' h with ⟨h0, hd0⟩ | h1 | h1
+  · rcases hun with hu | hu
+    · omega
+    · rw [hd0] at hu; cases hu
+  · exact fireWaiters_any false _ _ _ _ .w (by simp [Src.waitable]) h1
+  · exact fireWaiters_any false _ _ _ _ .f (by simp [Src.waitable]) h1
+
+/-- **C04_no_stall_in_shutdown.** Likewise for a connection in its shutdown procedure: a
+`Pending`, not self-woken poll in shutdown mode leaves a waiter the executor can serve. -/
+theorem C04_no_stall_in_shutdown (e : Env) (F : Nat) (d d' : D) (w w' : World)
+    (h : pollTop e F d w = (.pending, d', w')) (hw : w'.woken = false)
+    (hs : d'.flags.shutdown = true) (hl : d'.flags.linger = false) (tr : List String) :
+    (fireWaiters false Src.waitable w' tr false).2.2 = true := by
+  rcases C04_pending_registers_shutdown e F d d' w w' h hw hs hl with h1 | h1 | h1
+  · exact fireWaiters_any false _ _ _ _ .w (by simp [Src.waitable]) h1
+  · exact fireWaiters_any false _ _ _ _ .f (by simp [Src.waitable]) h1
+  · exact fireWaiters_any false _ _ _ _ .s (by simp [Src.waitable]) h1
 
 end ActixModel.C04
